@@ -6,9 +6,9 @@ CONSTANTS
   FileSeq <- Seq3
   MaxStmts = 2
   GenKinds = {"use", "forward", "import", "loadcss"}
-  GenSpellings = {"plain", "dot", "dd"}
+  GenSpellings = {"plain"}
   DevChoices <- DevIdeal
-  MaxFaultAt = 0
-INVARIANTS LockDiscipline DepthBound LoopOnlyOnCycle NeverOverflow InitOnce OkOnlyAcyclic Emit
+  MaxFaultAt = 6
+INVARIANTS FaultReported NoErrWithoutFault LockDiscipline DepthBound LoopOnlyOnCycle NeverOverflow InitOnce OkOnlyAcyclic Emit
 PROPERTY Termination
 CHECK_DEADLOCK FALSE
